@@ -485,18 +485,66 @@ theorem log_good {w : World} {S C : Nat → Prop} (hc : Closed w S C) (added : L
     (h : ∀ e ∈ added, S e.1) : Good w { w with log := w.log ++ added } S C :=
   ⟨hc, ⟨fun _ _ => rfl, fun _ _ => rfl, rfl, ⟨added, rfl, h⟩, Nat.le_refl _, Nat.le_refl _⟩⟩
 
-theorem callWatcher_owner {w : World} {wt : Watcher} {p : String} {old new : Val} {e : Nat × String}
-    (h : callWatcher w wt p old new = some e) : e.1 = wt.fn.owner := by
-  unfold callWatcher at h
+theorem runCallback_good {w : World} {S C : Nat → Prop} {cb : Option (Nat × Option String)}
+    (hc : Closed w S C) (hf : Fresh w C) (h : ∀ c : Nat × Option String, cb = some c → S c.1) :
+    Good w (w.runCallback cb) S C := by
+  unfold World.runCallback
+  split
+  · exact Good.refl hc
+  · rename_i obj attr
+    split
+    · exact updateDeps_good (h (obj, attr) rfl) _ w hc hf
+    · exact Good.refl hc
+
+theorem invoke_good {w w' : World} {S C : Nat → Prop} {wt : Watcher} {evs : List (String × Val × Val)}
+    {inv : Option (Nat × String)} (hc : Closed w S C) (hf : Fresh w C) (hw : wt.inSet S)
+    (h : invoke w wt evs = (w', inv)) : Good w w' S C ∧ ∀ e, inv = some e → S e.1 := by
+  unfold invoke at h
   split at h
-  · simp at h
-  · split at h
-    · split at h
-      · split at h
-        · simp at h
-        · simp at h; rw [← h]
-      · simp at h; rw [← h]
-    · simp at h; rw [← h]
+  · simp only at h
+    have g := runCallback_good (cb := wt.fn.callback) hc hf hw.2.2
+    simp at h; obtain ⟨rfl, rfl⟩ := h
+    refine ⟨g, ?_⟩
+    intro e he
+    split at he
+    · simp at he
+    · simp at he; rw [← he]; exact hw.2.1
+  · simp at h; obtain ⟨rfl, rfl⟩ := h
+    exact ⟨Good.refl hc, fun e he => by simp at he; rw [← he]; exact hw.2.1⟩
+
+theorem logOpt_good {w : World} {S C : Nat → Prop} (hc : Closed w S C) (inv : Option (Nat × String))
+    (h : ∀ e, inv = some e → S e.1) : Good w (w.logInv inv) S C := by
+  cases inv with
+  | none => exact Good.refl hc
+  | some e => exact log_good hc [e] (by intro x hx; simp at hx; rw [hx]; exact h e rfl)
+
+theorem dispatch_good {S C : Nat → Prop} {p : String} {old new : Val} :
+    ∀ (ws : List Watcher) (w : World), Closed w S C → Fresh w C → (∀ wt ∈ ws, wt.inSet S) →
+    Good w (dispatch w p old new ws) S C
+  | [], w, hc, _, _ => by simp only [dispatch]; exact Good.refl hc
+  | wt :: rest, w, hc, hf, hws => by
+    simp only [dispatch]
+    split
+    · exact dispatch_good rest w hc hf (fun x hx => hws x (by simp [hx]))
+    · generalize hi : invoke w wt [(p, old, new)] = r
+      obtain ⟨w1, inv⟩ := r
+      obtain ⟨g1, hinv⟩ := invoke_good hc hf (hws wt (by simp)) hi
+      simp only
+      have g2 := logOpt_good g1.closed inv hinv
+      exact (g1.trans g2).trans (dispatch_good rest _ g2.closed ((g1.trans g2).fresh hf) (fun x hx => hws x (by simp [hx])))
+
+theorem flush_good {S C : Nat → Prop} {evs : List (String × Val × Val)} :
+    ∀ (ws : List Watcher) (w : World), Closed w S C → Fresh w C → (∀ wt ∈ ws, wt.inSet S) →
+    Good w (flush w evs ws) S C
+  | [], w, hc, _, _ => by simp only [flush]; exact Good.refl hc
+  | wt :: rest, w, hc, hf, hws => by
+    simp only [flush]
+    generalize hi : invoke w wt _ = r
+    obtain ⟨w1, inv⟩ := r
+    obtain ⟨g1, hinv⟩ := invoke_good hc hf (hws wt (by simp)) hi
+    simp only
+    have g2 := logOpt_good g1.closed inv hinv
+    exact (g1.trans g2).trans (flush_good rest _ g2.closed ((g1.trans g2).fresh hf) (fun x hx => hws x (by simp [hx])))
 
 theorem mem_insertByPrec {wt x : Watcher} : ∀ {l : List Watcher}, x ∈ insertByPrec wt l → x = wt ∨ x ∈ l
   | [], h => by simp [insertByPrec] at h; exact Or.inl h
@@ -555,6 +603,19 @@ theorem ensureInObjects_good {w w' : World} {S C : Nat → Prop} {o : Nat} {p : 
           exact setCell_good _ hc (pcopy_slots_inC hc ho hs).1
       · simp at h
 
+theorem watchersOf_inSet {w : World} {S C : Nat → Prop} {o : Nat} {p : String} (hc : Closed w S C) (ho : S o) :
+    ∀ wt ∈ sortByPrec (((w.objs[o]?).bind (fun ob => lookup ob.watchers p)).getD []), wt.inSet S := by
+  intro wt hwt
+  have hwt' := mem_sortByPrec hwt
+  cases hob : w.objs[o]? with
+  | none => simp [hob] at hwt'
+  | some ob =>
+    cases hl : lookup ob.watchers p with
+    | none => simp [hob, hl] at hwt'
+    | some l =>
+      simp [hob, hl] at hwt'
+      exact (hc o ob ho hob).watchers _ (lookup_mem hl) wt hwt'
+
 /-- `obj.p = v` on an object of a closed set with an argument from the set -/
 theorem doSet_good {w w' : World} {S C : Nat → Prop} {o : Nat} {p : String} {a : Arg}
     (hc : Closed w S C) (ho : S o) (hf : Fresh w C) (ha : a.inSets w S C) (h : doSet w o p a = .ok w') :
@@ -580,26 +641,100 @@ theorem doSet_good {w w' : World} {S C : Nat → Prop} {o : Nat} {p : String} {a
               · exact hv
               · exact hh.values kv hm, hh.attrs, hh.watchers, hh.dyn, hh.pcopies⟩)
           have g0123 := ((g1.trans g2).trans g2').trans g3
-          have g4 := updateDeps_good (attr := p) ho c.methods _ g3.closed (g0123.fresh hf)
+          have g4 := updateDeps_good (attr := some p) ho c.methods _ g3.closed (g0123.fresh hf)
           simp at h
           subst h
-          refine (g0123.trans g4).trans (log_good g4.closed _ ?_)
-          intro e he
-          simp only [List.mem_filterMap] at he
-          obtain ⟨wt, hwt, hcall⟩ := he
-          rw [callWatcher_owner hcall]
-          have hwt' := mem_sortByPrec hwt
-          generalize hw4 : ((w2.setObj o fun ob => { ob with values := insert ob.values p v }).updateDeps o p c.methods) = w4 at hwt' g4
-          cases hob : w4.objs[o]? with
-          | none => simp [hob] at hwt'
-          | some ob =>
-            cases hl : lookup ob.watchers p with
-            | none => simp [hob, hl] at hwt'
-            | some l =>
-              simp [hob, hl] at hwt'
-              exact ((g4.closed o ob ho hob).watchers _ (lookup_mem hl) wt hwt').2
+          exact (g0123.trans g4).trans (dispatch_good _ _ g4.closed ((g0123.trans g4).fresh hf)
+            (watchersOf_inSet g4.closed ho))
         · simp at h
       · simp at h
+
+theorem queue_grow {S : Nat → Prop} : ∀ (ws q : List Watcher), (∀ wt ∈ ws, wt.inSet S) → (∀ wt ∈ q, wt.inSet S) →
+    ∀ wt ∈ ws.foldl (fun q wt => if wt ∈ q then q else q ++ [wt]) q, wt.inSet S
+  | [], q, _, hq => by simpa using hq
+  | x :: rest, q, hws, hq => by
+    simp only [List.foldl_cons]
+    refine queue_grow rest _ (fun wt hwt => hws wt (by simp [hwt])) ?_
+    intro wt hwt
+    split at hwt
+    · exact hq wt hwt
+    · simp only [List.mem_append, List.mem_singleton] at hwt
+      rcases hwt with hwt | rfl
+      · exact hq wt hwt
+      · exact hws _ (by simp)
+
+/-- one assignment inside a batch keeps the set closed; what it queues belongs to the set -/
+theorem updateOne_good {w w' : World} {S C : Nat → Prop} {o : Nat} {c : ClassDef} {p : String} {a : Arg}
+    {evs evs' : List (String × Val × Val)} {q q' : List Watcher}
+    (hc : Closed w S C) (ho : S o) (hf : Fresh w C) (ha : a.inSets w S C) (hq : ∀ wt ∈ q, wt.inSet S)
+    (h : updateOne w o c p a evs q = some (w', evs', q')) :
+    Good w w' S C ∧ ∀ wt ∈ q', wt.inSet S := by
+  unfold updateOne at h
+  split at h
+  · generalize hev : evalArg w a = r at h
+    obtain ⟨v, w1⟩ := r
+    obtain ⟨g1, hv⟩ := evalArg_good hc ha hev
+    simp only at h
+    have g2 := touchParam_good (p := p) g1.closed ho (g1.fresh hf)
+    split at h
+    · rename_i old w2 _ hens
+      have g2' := ensureInObjects_good g2.closed ho hens
+      have g3 : Good w2 (w2.setObj o fun ob => { ob with values := insert ob.values p v }) S C :=
+        setObj_good g2'.closed ho (fun ob _ hh => ⟨fun kv hkv => by
+          rcases mem_insert hkv with rfl | hm
+          · exact hv
+          · exact hh.values kv hm, hh.attrs, hh.watchers, hh.dyn, hh.pcopies⟩)
+      have g0123 := ((g1.trans g2).trans g2').trans g3
+      have g4 := updateDeps_good (attr := some p) ho c.methods _ g3.closed (g0123.fresh hf)
+      have hws := watchersOf_inSet (p := p) g4.closed ho
+      split at h
+      · simp at h; obtain ⟨rfl, _, rfl⟩ := h
+        exact ⟨g0123.trans g4, hq⟩
+      · simp at h; obtain ⟨rfl, _, rfl⟩ := h
+        refine ⟨g0123.trans g4, ?_⟩
+        exact queue_grow _ _ hws hq
+    · simp at h
+  · simp at h
+
+/-- the arguments of a batched update stay inside `S`/`C` (each evaluated when its turn comes) -/
+def kvsIn (S C : Nat → Prop) : List (String × Arg) → Prop
+  | [] => True
+  | (_, a) :: rest => (match a with | .obj o => S o | _ => True) ∧ kvsIn S C rest
+
+theorem updateLoop_good {S C : Nat → Prop} {o : Nat} {c : ClassDef} (ho : S o) :
+    ∀ (kvs : List (String × Arg)) (w w' : World) (evs evs' : List (String × Val × Val)) (q q' : List Watcher),
+    Closed w S C → Fresh w C → kvsIn S C kvs → (∀ wt ∈ q, wt.inSet S) →
+    updateLoop w o c kvs evs q = some (w', evs', q') → Good w w' S C ∧ ∀ wt ∈ q', wt.inSet S
+  | [], w, w', evs, evs', q, q', hc, _, _, hq, h => by
+    simp [updateLoop] at h; obtain ⟨rfl, _, rfl⟩ := h; exact ⟨Good.refl hc, hq⟩
+  | (p, a) :: rest, w, w', evs, evs', q, q', hc, hf, hk, hq, h => by
+    simp only [updateLoop] at h
+    split at h
+    · rename_i w1 evs1 q1 h1
+      have ha : a.inSets w S C := by
+        cases a with
+        | obj x => exact hk.1
+        | newList l => exact hf _ (Nat.le_refl _)
+        | none => trivial
+        | int n => trivial
+      obtain ⟨g1, hq1⟩ := updateOne_good hc ho hf ha hq h1
+      obtain ⟨g2, hq2⟩ := updateLoop_good ho rest w1 w' evs1 evs' q1 q' g1.closed (g1.fresh hf) hk.2 hq1 h
+      exact ⟨g1.trans g2, hq2⟩
+    · simp at h
+
+theorem doUpdate_good {w w' : World} {S C : Nat → Prop} {o : Nat} {kvs : List (String × Arg)}
+    (hc : Closed w S C) (ho : S o) (hf : Fresh w C) (hk : kvsIn S C kvs) (h : doUpdate w o kvs = .ok w') :
+    Good w w' S C := by
+  unfold doUpdate at h
+  split at h
+  · simp at h
+  · rename_i c _
+    split at h
+    · simp at h
+    · rename_i w1 evs queued hl
+      simp at h; subst h
+      obtain ⟨g1, hq⟩ := updateLoop_good (c := c) ho kvs w w1 [] evs [] queued hc hf hk (by simp) hl
+      exact g1.trans (flush_good _ _ g1.closed (g1.fresh hf) (fun wt hwt => hq wt (mem_sortByPrec hwt)))
 
 theorem doSelAdd_good {w w' : World} {S C : Nat → Prop} {o : Nat} {p : String} {n : Int}
     (hc : Closed w S C) (ho : S o) (hf : Fresh w C) (h : doSelAdd w o p n = .ok w') : Good w w' S C := by
@@ -672,7 +807,7 @@ theorem doPEdit_good {w w' : World} {S C : Nat → Prop} {o : Nat} {p : String} 
         intro e he
         simp only [List.mem_map] at he
         obtain ⟨wt, hwt, rfl⟩ := he
-        exact (hpcIn.2 wt hwt).2
+        exact (hpcIn.2 wt hwt).2.1
     | constant b =>
       simp at h; subst h
       exact g1.trans (hset { pc with constant := b } rfl rfl)
@@ -705,13 +840,13 @@ theorem doMutAttr_good {w w' : World} {S C : Nat → Prop} {o : Nat} {name : Str
       exact (hc o ob ho hob).attrs _ (lookup_mem hg)
   · simp at h
 
-theorem doWatch_good {w w' : World} {S C : Nat → Prop} {o t : Nat} {p cb : String}
+theorem doWatch_good {w w' : World} {S C : Nat → Prop} {o t : Nat} {p : List String} {cb : String}
     (hc : Closed w S C) (ho : S o) (ht : S t) (h : doWatch w o p t cb = .ok w') : Good w w' S C := by
   unfold doWatch at h
   split at h
   · split at h
     · simp at h; subst h
-      exact addWatcher_good hc ⟨ho, ht⟩
+      exact addWatcher_good hc ⟨ho, ht, by simp⟩
     · simp at h
   · simp at h
 
@@ -727,6 +862,7 @@ def Op.inSets (w : World) (S C : Nat → Prop) : Op → Prop
   | .selAdd o _ _ => S o
   | .watchPartial o _ t _ => S o ∧ S t
   | .watchSlot o _ t _ => S o ∧ S t
+  | .update o kvs => S o ∧ kvsIn S C kvs
 
 theorem doWatchPartial_good {w w' : World} {S C : Nat → Prop} {o t : Nat} {p cb : String}
     (hc : Closed w S C) (ho : S o) (ht : S t) (h : doWatchPartial w o p t cb = .ok w') : Good w w' S C := by
@@ -736,7 +872,8 @@ theorem doWatchPartial_good {w w' : World} {S C : Nat → Prop} {o t : Nat} {p c
     · simp at h; subst h
       have g1 := nextPid_good hc (w.nextPid + 1)
       have g2 : Good _ (World.addWatcher { w with nextPid := w.nextPid + 1 }
-          ⟨o, ⟨.partialFn, t, cb, Option.none, w.nextPid⟩, [p], 0⟩) S C := addWatcher_good g1.closed ⟨ho, ht⟩
+          ⟨o, ⟨.partialFn, t, cb, Option.none, w.nextPid, Option.none⟩, [p], 0⟩) S C :=
+        addWatcher_good g1.closed ⟨ho, ht, by simp⟩
       exact g1.trans g2
     · simp at h
   · simp at h
@@ -770,7 +907,7 @@ theorem doWatchSlot_good {w w' : World} {S C : Nat → Prop} {o t : Nat} {p cb :
           simp only [List.mem_append, List.mem_singleton] at hwt
           rcases hwt with hwt | rfl
           · exact hpcIn.2 wt hwt
-          · exact ⟨ho, ht⟩
+          · exact ⟨ho, ht, by simp⟩
         · exact hh.pcopies kv hm
       · simp at h
 
@@ -789,12 +926,14 @@ theorem step_good {w w' : World} {S C : Nat → Prop} {op : Op} (hc : Closed w S
   | selAdd o p n => exact doSelAdd_good hc hop hf h
   | watchPartial o p t cb => exact doWatchPartial_good hc hop.1 hop.2 h
   | watchSlot o p t cb => exact doWatchSlot_good hc hop.1 hop.2 hf h
+  | update o kvs => exact doUpdate_good hc hop.1 hf hop.2 h
 
 /-! ## `__setstate__` and the graph copy -/
 
 theorem rebindWatcher_spec {pol : Policy} {cls : Option ClassDef} {self : Nat} {wt wt' : Watcher} {pid pid' : Nat}
     (h : rebindWatcher pol cls self wt pid = .ok (wt', pid')) :
-    wt'.inst = self ∧ (wt'.fn.owner = self ∨ wt'.fn = wt.fn) ∧ wt'.names = wt.names ∧ wt'.precedence = wt.precedence := by
+    wt'.inst = self ∧ ((wt'.fn.owner = self ∧ (wt'.fn.callback = Option.none ∨ wt'.fn.callback = wt.fn.callback)) ∨ wt'.fn = wt.fn) ∧
+      wt'.names = wt.names ∧ wt'.precedence = wt.precedence := by
   unfold rebindWatcher at h
   cases hk : wt.fn.kind <;> simp only [hk] at h
   · by_cases hr : pol.redo wt.fn.owner self = true
@@ -803,17 +942,18 @@ theorem rebindWatcher_spec {pol : Policy} {cls : Option ClassDef} {self : Nat} {
       | none => simp at h
       | some c =>
         by_cases ha : c.hasAttr wt.fn.method = true
-        · simp [ha] at h; obtain ⟨rfl, _⟩ := h; exact ⟨rfl, Or.inl rfl, rfl, rfl⟩
+        · simp [ha] at h; obtain ⟨rfl, _⟩ := h; exact ⟨rfl, Or.inl ⟨rfl, Or.inl rfl⟩, rfl, rfl⟩
         · simp [ha] at h
     · simp [hr] at h; obtain ⟨rfl, _⟩ := h; exact ⟨rfl, Or.inr rfl, rfl, rfl⟩
   · by_cases ho : wt.fn.owner = wt.inst
-    · simp [ho] at h; obtain ⟨rfl, _⟩ := h; exact ⟨rfl, Or.inl rfl, rfl, rfl⟩
+    · simp [ho] at h; obtain ⟨rfl, _⟩ := h; exact ⟨rfl, Or.inl ⟨rfl, Or.inr rfl⟩, rfl, rfl⟩
     · simp [ho] at h; obtain ⟨rfl, _⟩ := h; exact ⟨rfl, Or.inr rfl, rfl, rfl⟩
   · simp at h; obtain ⟨rfl, _⟩ := h; exact ⟨rfl, Or.inr rfl, rfl, rfl⟩
 
 theorem rebindList_spec {pol : Policy} {cls : Option ClassDef} {self : Nat} :
     ∀ {l out : List Watcher} {pid pid' : Nat}, rebindList pol cls self l pid = .ok (out, pid') →
-    ∀ wt' ∈ out, wt'.inst = self ∧ (wt'.fn.owner = self ∨ ∃ wt ∈ l, wt'.fn = wt.fn)
+    ∀ wt' ∈ out, wt'.inst = self ∧ ((wt'.fn.owner = self ∧ (wt'.fn.callback = Option.none ∨ ∃ wt ∈ l, wt'.fn.callback = wt.fn.callback)) ∨
+      ∃ wt ∈ l, wt'.fn = wt.fn)
   | [], out, pid, pid', h => by simp [rebindList] at h; obtain ⟨rfl, _⟩ := h; simp
   | wt :: rest, out, pid, pid', h => by
     simp only [rebindList] at h
@@ -828,13 +968,16 @@ theorem rebindList_spec {pol : Policy} {cls : Option ClassDef} {self : Nat} :
         simp only [List.mem_cons] at hwt'
         rcases hwt' with rfl | hm
         · obtain ⟨a, b, _⟩ := rebindWatcher_spec h1
-          exact ⟨a, b.imp id (fun e => ⟨wt, by simp, e⟩)⟩
+          exact ⟨a, b.imp (fun ⟨h1, h2⟩ => ⟨h1, h2.imp id (fun e => ⟨wt, by simp, e⟩)⟩) (fun e => ⟨wt, by simp, e⟩)⟩
         · obtain ⟨a, b⟩ := rebindList_spec h2 wt' hm
-          exact ⟨a, b.imp id (fun ⟨x, hx, e⟩ => ⟨x, by simp [hx], e⟩)⟩
+          exact ⟨a, b.imp (fun ⟨h1, h2⟩ => ⟨h1, h2.imp id (fun ⟨x, hx, e⟩ => ⟨x, by simp [hx], e⟩)⟩)
+            (fun ⟨x, hx, e⟩ => ⟨x, by simp [hx], e⟩)⟩
 
 theorem rebindTable_spec {pol : Policy} {cls : Option ClassDef} {self : Nat} :
     ∀ {t out : List (String × List Watcher)} {pid pid' : Nat}, rebindTable pol cls self t pid = .ok (out, pid') →
-    ∀ kv' ∈ out, ∀ wt' ∈ kv'.2, wt'.inst = self ∧ (wt'.fn.owner = self ∨ ∃ kv ∈ t, ∃ wt ∈ kv.2, wt'.fn = wt.fn)
+    ∀ kv' ∈ out, ∀ wt' ∈ kv'.2, wt'.inst = self ∧
+      ((wt'.fn.owner = self ∧ (wt'.fn.callback = Option.none ∨ ∃ kv ∈ t, ∃ wt ∈ kv.2, wt'.fn.callback = wt.fn.callback)) ∨
+       ∃ kv ∈ t, ∃ wt ∈ kv.2, wt'.fn = wt.fn)
   | [], out, pid, pid', h => by simp [rebindTable] at h; obtain ⟨rfl, _⟩ := h; simp
   | (p, ws) :: rest, out, pid, pid', h => by
     simp only [rebindTable] at h
@@ -849,14 +992,18 @@ theorem rebindTable_spec {pol : Policy} {cls : Option ClassDef} {self : Nat} :
         simp only [List.mem_cons] at hkv'
         rcases hkv' with rfl | hm
         · obtain ⟨a, b⟩ := rebindList_spec h1 wt' hwt'
-          exact ⟨a, b.imp id (fun ⟨x, hx, e⟩ => ⟨(p, ws), by simp, x, hx, e⟩)⟩
+          exact ⟨a, b.imp (fun ⟨h1, h2⟩ => ⟨h1, h2.imp id (fun ⟨x, hx, e⟩ => ⟨(p, ws), by simp, x, hx, e⟩)⟩)
+            (fun ⟨x, hx, e⟩ => ⟨(p, ws), by simp, x, hx, e⟩)⟩
         · obtain ⟨a, b⟩ := rebindTable_spec h2 kv' hm wt' hwt'
-          exact ⟨a, b.imp id (fun ⟨kv, hkv, x, hx, e⟩ => ⟨kv, by simp [hkv], x, hx, e⟩)⟩
+          exact ⟨a, b.imp (fun ⟨h1, h2⟩ => ⟨h1, h2.imp id (fun ⟨kv, hkv, x, hx, e⟩ => ⟨kv, by simp [hkv], x, hx, e⟩)⟩)
+            (fun ⟨kv, hkv, x, hx, e⟩ => ⟨kv, by simp [hkv], x, hx, e⟩)⟩
 
 /-- what `__setstate__` may have done to the copied state `ob` of the object now at address `self` -/
 def Rebound (self : Nat) (ob ob' : Obj) : Prop :=
   ob' = ob ∨ ∃ t, ob' = { ob with watchers := t } ∧
-    ∀ kv' ∈ t, ∀ wt' ∈ kv'.2, wt'.inst = self ∧ (wt'.fn.owner = self ∨ ∃ kv ∈ ob.watchers, ∃ wt ∈ kv.2, wt'.fn = wt.fn)
+    ∀ kv' ∈ t, ∀ wt' ∈ kv'.2, wt'.inst = self ∧
+      ((wt'.fn.owner = self ∧ (wt'.fn.callback = Option.none ∨ ∃ kv ∈ ob.watchers, ∃ wt ∈ kv.2, wt'.fn.callback = wt.fn.callback)) ∨
+       ∃ kv ∈ ob.watchers, ∃ wt ∈ kv.2, wt'.fn = wt.fn)
 
 theorem setstate_spec {pol : Policy} {classes : List ClassDef} {self : Nat} {ob ob' : Obj} {pid pid' : Nat}
     (h : setstate pol classes self ob pid = .ok (ob', pid')) : Rebound self ob ob' := by
@@ -1160,6 +1307,14 @@ theorem copyGraph_unbound_eq {w : World} {root : Nat} (hroot : root < w.objs.len
 
 /-! ### the two halves of the world after a copy -/
 
+theorem renWatcher_inSet (no np : Nat) (wt : Watcher) : (renWatcher no np wt).inSet (fun o => no ≤ o) := by
+  refine ⟨by simp [renWatcher], by simp [renWatcher, renCaller], ?_⟩
+  intro cb hcb
+  simp only [renWatcher, renCaller] at hcb
+  cases h : wt.fn.callback with
+  | none => simp [h] at hcb
+  | some c => simp [h] at hcb; rw [← hcb]; simp
+
 theorem renObj_refsIn (no nc np : Nat) (ob : Obj) :
     (renObj no nc np ob).refsIn (fun o => no ≤ o) (fun c => nc ≤ c) := by
   refine ⟨?_, ?_, ?_, ?_, ?_⟩
@@ -1175,7 +1330,7 @@ theorem renObj_refsIn (no nc np : Nat) (ob : Obj) :
     · intro wt hwt
       simp only [renPCopy, List.mem_map] at hwt
       obtain ⟨wt0, _, rfl⟩ := hwt
-      simp [Watcher.inSet, renWatcher, renCaller]
+      exact renWatcher_inSet no np wt0
   · intro kv hkv
     simp only [renObj, List.mem_map] at hkv
     obtain ⟨kv0, _, rfl⟩ := hkv
@@ -1186,13 +1341,13 @@ theorem renObj_refsIn (no nc np : Nat) (ob : Obj) :
     cases kv0.2 <;> simp [renVal, Val.inSets]
   · intro kv hkv wt hwt
     obtain ⟨_, _, wt0, _, rfl⟩ := renObj_watchers hkv hwt
-    simp [Watcher.inSet, renWatcher, renCaller]
+    exact renWatcher_inSet no np wt0
   · intro kv hkv wt hwt
     simp only [renObj, List.mem_map] at hkv
     obtain ⟨kv0, _, rfl⟩ := hkv
     simp only [List.mem_map] at hwt
     obtain ⟨wt0, _, rfl⟩ := hwt
-    simp [Watcher.inSet, renWatcher, renCaller]
+    exact renWatcher_inSet no np wt0
 
 theorem Rebound.refsIn {no nc np self : Nat} {ob ob' : Obj} (hs : no ≤ self)
     (h : Rebound self (renObj no nc np ob) ob') : ob'.refsIn (fun o => no ≤ o) (fun c => nc ≤ c) := by
@@ -1203,8 +1358,11 @@ theorem Rebound.refsIn {no nc np self : Nat} {ob ob' : Obj} (hs : no ≤ self)
     intro kv hkv wt hwt
     obtain ⟨hi, ho⟩ := ht kv hkv wt hwt
     refine ⟨by rw [hi]; exact hs, ?_⟩
-    rcases ho with ho | ⟨kv0, hkv0, wt0, hwt0, e⟩
-    · rw [ho]; exact hs
+    rcases ho with ⟨ho, hcb⟩ | ⟨kv0, hkv0, wt0, hwt0, e⟩
+    · refine ⟨by rw [ho]; exact hs, ?_⟩
+      rcases hcb with hcb | ⟨kv0, hkv0, wt0, hwt0, e⟩
+      · intro cb h; rw [hcb] at h; simp at h
+      · rw [e]; exact (h0.watchers kv0 hkv0 wt0 hwt0).2.2
     · rw [e]; exact (h0.watchers kv0 hkv0 wt0 hwt0).2
 
 /-- after a copy the new objects refer only to new objects and new lists … -/
@@ -1242,7 +1400,13 @@ theorem wfB_sound {w : World} (h : wfB w = true) :
     intro v hv
     cases v <;> simp_all [valOKB, Val.inSets]
   have hwt : ∀ wt : Watcher, watcherOKB w.objs.length wt = true → wt.inSet (fun o => o < w.objs.length) := by
-    intro wt h; simp [watcherOKB] at h; exact h
+    intro wt h
+    simp only [watcherOKB, Bool.and_eq_true, decide_eq_true_eq] at h
+    refine ⟨h.1.1, h.1.2, ?_⟩
+    intro cb hcb
+    have h2 := h.2
+    simp only [hcb, decide_eq_true_eq] at h2
+    exact h2
   refine ⟨fun kv hkv => hval _ (hv kv hkv), fun kv hkv => hval _ (ha kv hkv),
          fun kv hkv wt hx => hwt wt (hw kv hkv wt hx), fun kv hkv wt hx => hwt wt (hd kv hkv wt hx), ?_⟩
   intro kv hkv
